@@ -172,6 +172,16 @@ func checkC04E2E(c C04Conf, o *vcore.Obs) error {
 			return err
 		}
 	}
+	// a marker that is older than the load cutoff but not yet past the retention (the sweeper must keep it): an older
+	// live version of its key that arrives later from a peer that never saw the deletion must not bring the key back
+	m := sw.RetentionDurationMinusCutoff()
+	lateTS := now.Add(-(m + (r-m)/2))
+	haveLate := m > 0 && m < r && (r-m)/2 >= 30*time.Second && lateTS.Add(-time.Hour).UnixNano() > 0
+	if haveLate {
+		if err := put("late", lateTS, true); err != nil {
+			return err
+		}
+	}
 	// Before the sweeper gets to them, markers travel in every snapshot for as long as they exist -
 	// also the ones already older than the retention (a peer may still hold an older live version)
 	if _, err := s.SendOnce(context.Background(), env.Env); err != nil {
@@ -236,6 +246,13 @@ func checkC04E2E(c C04Conf, o *vcore.Obs) error {
 	if haveOldLive {
 		snap.DBIs[0].Entries = append(snap.DBIs[0].Entries, model.KV{Key: []byte("oldlive"), TS: uint64(expiredTS.UnixNano()), Flags: 1})
 	}
+	if haveLate {
+		if !present("late") {
+			return fmt.Errorf("sweep removed a marker younger than the retention (age %v, retention %v)", now.Sub(lateTS), r)
+		}
+		snap.DBIs[0].Entries = append(snap.DBIs[0].Entries, model.KV{Key: []byte("late"), TS: uint64(lateTS.Add(-time.Hour).UnixNano()), Val: model.ValOf([]byte("older-live-version"))})
+		o.Class("stored-marker-between-load-cutoff-and-retention-meets-older-live-version")
+	}
 	takenAt := now.Add(-time.Duration(c.SnapAgeNs))
 	if c.SnapAgeNs > 0 && takenAt.UnixNano() > 0 {
 		snap.Meta.TimestampNano = uint64(takenAt.UnixNano())
@@ -270,6 +287,24 @@ func checkC04E2E(c C04Conf, o *vcore.Obs) error {
 		})
 		if stillLive {
 			return fmt.Errorf("a deletion at T (older than the load cutoff) arrived for a key whose stored live version is older than T, but the key is still live: deletions must win against older versions whatever the sweeper settings")
+		}
+	}
+	if haveLate {
+		var live bool
+		_ = env.View(func(txn *lmdb.Txn) error {
+			dbi, err := txn.OpenDBI("d", 0)
+			if err != nil {
+				return nil
+			}
+			if v, err := txn.Get(dbi, []byte("late")); err == nil {
+				if h, herr := model.ReadHeader(v); herr == nil && h.Flags&1 == 0 {
+					live = true
+				}
+			}
+			return nil
+		})
+		if live {
+			return fmt.Errorf("key deleted %v ago (marker still stored: younger than the retention %v, older than the load cutoff %v) is live again after a peer snapshot with a version one hour OLDER than the deletion was merged: resurrected", now.Sub(lateTS), r, m)
 		}
 	}
 	if !present("young2") && time.Duration(c.SnapAgeNs) < time.Second {
